@@ -276,6 +276,63 @@ func %s() {
 			fam.Instances = append(fam.Instances, Instance{Func: name, Stratum: "cross-thread/" + m.name, Desc: fmt.Sprintf("%s with update %s from another goroutine", m.name, u), Expect: []string{"executed"}})
 		}
 	}
+	// sequences of updates with no execution running: every later execution sees the last version
+	seqs := []struct {
+		id    string
+		steps []int
+		after string
+	}{
+		{"clear_incr", []int{5, 2}, "map[string]int64{\"b\": 2}"},
+		{"clear_incradd", []int{5, 3}, "map[string]int64{\"c\": 2, \"d\": 2}"},
+		{"clear_full", []int{5, 0}, "map[string]int64{\"a\": 2, \"b\": 2, \"c\": 2}"},
+		{"remove_incr", []int{4, 2}, "map[string]int64{\"a\": 1, \"b\": 2}"},
+		{"remove_incradd", []int{4, 3}, "map[string]int64{\"a\": 1, \"b\": 1, \"c\": 2, \"d\": 2}"},
+		{"incr_remove", []int{2, 4}, "map[string]int64{\"a\": 1, \"b\": 2}"},
+		{"full_incradd_clear_incr", []int{1, 3, 5, 2}, "map[string]int64{\"b\": 2}"},
+	}
+	for _, sq := range seqs {
+		name := "V_" + sq.id
+		var steps []string
+		for _, k := range sq.steps {
+			steps = append(steps, fmt.Sprint(k))
+		}
+		fmt.Fprintf(&b, `
+// updates %s in sequence, then executions in several models on both instances
+func %s() {
+	gp, e := NewGenginePool(1, 2, SortModel, zzVText(1, false, "abc"), zzApis())
+	zzMust(e, "pool construction")
+	for _, k := range []int{%s} {
+		zzMust(zzUpdates()[k].fn(gp), "the update succeeds")
+	}
+	after := %s
+	for which := 0; which < 2; which++ {
+		for model := 0; model < 3; model++ {
+			var held *gengineWrapper
+			if which == 1 {
+				held, _ = gp.getGengine()
+			}
+			mark := len(vnd.Trace())
+			data := map[string]interface{}{"req": int64(1)}
+			switch model {
+			case 0:
+				gp.Execute(data, true)
+			case 1:
+				gp.ExecuteConcurrent(data)
+			default:
+				gp.ExecuteRulesWithMultiInputWithSpecifiedEM(data)
+			}
+			if held != nil {
+				gp.putGengineLocked(held)
+			}
+			vnd.Quiesce()
+			zzExactly(zzRan(mark), after, "after the updates returned every later execution, on any instance and in any model, runs the last version")
+		}
+	}
+	vnd.Reach("executed")
+}
+`, sq.id, name, strings.Join(steps, ", "), sq.after)
+		fam.Instances = append(fam.Instances, Instance{Func: name, Stratum: "sequence", Desc: "updates " + sq.id + " then executions", Expect: []string{"executed"}})
+	}
 	finishPoolFamily(fam, "C07", b.String())
 	for p, src := range fam.Files {
 		if strings.HasSuffix(p, "zz_vh_c07.go") {
@@ -308,7 +365,7 @@ func genC19(tier string, seed int64) (*Family, error) {
 		Cfg: interp.Config{MaxSteps: 8_000_000,
 			TrackFields: []string{"engine.Gengine.returnResult", "engine.GenginePool.freeGengines", "engine.GenginePool.additionGengines", "engine.GenginePool.ruleBuilder", "engine.GenginePool.execModel", "engine.GenginePool.clear",
 				"engine.gengineWrapper.rulebuilder", "builder.RuleBuilder.Kc", "base.KnowledgeContext.RuleEntities", "base.KnowledgeContext.SortRules", "base.KnowledgeContext.SortRulesIndexMap", "context.DataContext.base"},
-			TrackAllocs: []string{"eMsg"}, TrackMakeMaps: []string{"base.RuleEntity).Execute"}},
+			TrackAllocs: []string{"eMsg"}, TrackMakeMaps: []string{"base.RuleEntity).Execute"}, TrackStructsOf: []string{"base"}},
 		Functions: []string{"engine.GenginePool).getGengine", "engine.GenginePool).putGengineLocked", "engine.Gengine).addResult", "DataContext).Add", "DataContext).Del"},
 	}
 	fam.Assumptions = []string{
@@ -404,6 +461,27 @@ func P_two_requests() {
 	vnd.NoRaces("")
 }
 
+// two requests execute the same rich rule at once: the published rule set (every field of every AST node) is only read
+func P_shared_rule_set() {
+	text := "rule \"k\" begin\n x = M[7] + SL[1]\n y = MS[\"k\"]\n if x > 1 {\n  z = obj.Touch(false)\n } else if y == 3 {\n  z = 1\n } else {\n  z = 2\n }\n for i = 0; i < 2; i += 1 {\n  x += i\n  if i == 5 {\n   break\n  }\n }\n forRange q := SL {\n  y += q\n  continue\n }\n M[8] = x\n conc {\n  a = fn(false)\n  b = obj.Touch(false)\n }\n w = !(x < y) && (MS[key] != 2 || true)\n return x + y + @sal\nend\n"
+	apis := zzApis()
+	apis["fn"] = func(q bool) int64 { return 1 }
+	gp, e := NewGenginePool(1, 2, SortModel, text, apis)
+	zzMust(e, "pool construction")
+	var wg sync.WaitGroup
+	for r := 0; r < 2; r++ {
+		data := map[string]interface{}{"M": map[int64]int64{7: int64(r)}, "MS": map[string]int64{"k": 1}, "SL": []int64{1, 2}, "obj": &zzObj{N: 2}, "key": "k"}
+		zzClient(gp, &wg, func() {
+			err, _ := gp.Execute(data, true)
+			_ = err
+		})
+	}
+	wg.Wait()
+	vnd.Quiesce()
+	vnd.Reach("executed")
+	vnd.NoRaces("")
+}
+
 // three requests on a pool of two: hand-back and re-use
 func P_three_requests() {
 	gp, e := NewGenginePool(1, 2, SortModel, zzVText(1, false, "ab"), zzApis())
@@ -420,6 +498,7 @@ func P_three_requests() {
 	vnd.NoRaces("")
 }
 `)
+	fam.Instances = append(fam.Instances, Instance{Func: "P_shared_rule_set", Stratum: "pool/requests", Desc: "two requests executing one rule with every construct kind", Expect: []string{"executed"}, Nondet: true})
 	fam.Instances = append(fam.Instances, Instance{Func: "P_two_requests", Stratum: "pool/requests", Desc: "two concurrent pool requests", Expect: []string{"executed"}},
 		Instance{Func: "P_three_requests", Stratum: "pool/requests", Desc: "three pool requests with hand-back", Expect: []string{"executed"}})
 	for ui, u := range []string{"full", "fullset", "incr", "incradd", "remove", "clear"} {
